@@ -17,7 +17,9 @@
      page token  ::= L<id>:<prev>:<next>:<slot>@<p1+p2…>,…   | I<id>:<prev>:<next>:<right>:<left>[@<p1+p2…>],…
                    | O<id>:<next> | B<id>
      Only tokens that changed since the previous step are listed (the driver keeps the page table).
-     Verdict `ok` iff after **every** step `checkOwnership` (proved sound in Thm/C11) accepts the dump, and between
+     N=<root,…> names the trees with numeric keys, `K<id>:<k1>,…` gives the keys of all cells of a page of such a tree.
+     Verdict `ok` iff after **every** step `checkOwnership` (proved sound in Thm/C11) accepts the dump, C10's `checkTree`
+     (proved sound in Thm/C10) accepts every tree with numeric keys, and between
      consecutive steps the file did not grow while the free list of the earlier step was still there, untouched, at the head
      of the later one (reuse before growth).
 -/
@@ -173,14 +175,60 @@ def parsePageTok (tok : String) : Option PTok :=
 structure Tab where
   pages : Array (Option Page) := #[]
   links : Array (Option Nat) := #[]
+  /-- keys of all cells of a page (numeric-key trees only) -/
+  keys : Array (Option (List Nat)) := #[]
 
 def grow {α : Type} (a : Array (Option α)) (id : Nat) : Array (Option α) :=
   if id < a.size then a else a ++ Array.replicate (id + 1 - a.size) none
 
 def Tab.set (t : Tab) : PTok → Tab
-  | .btree id p => { pages := (grow t.pages id).setIfInBounds id (some p), links := (grow t.links id).setIfInBounds id none }
-  | .ovf id nx => { pages := (grow t.pages id).setIfInBounds id none, links := (grow t.links id).setIfInBounds id (some nx) }
-  | .bad id => { pages := (grow t.pages id).setIfInBounds id none, links := (grow t.links id).setIfInBounds id none }
+  | .btree id p => { t with pages := (grow t.pages id).setIfInBounds id (some p), links := (grow t.links id).setIfInBounds id none }
+  | .ovf id nx => { t with pages := (grow t.pages id).setIfInBounds id none, links := (grow t.links id).setIfInBounds id (some nx) }
+  | .bad id => { t with pages := (grow t.pages id).setIfInBounds id none, links := (grow t.links id).setIfInBounds id none }
+
+/-- `K<id>:<k1>,<k2>,…` or `K<id>:!` -/
+def parseKeyTok (tok : String) : Option (Nat × Option (List Nat)) :=
+  match ((tok.drop 1).toString).splitOn ":" with
+  | [id, ks] =>
+    match num id with
+    | none => none
+    | some id =>
+      if ks = "!" then some (id, none)
+      else if ks.isEmpty then some (id, some [])
+      else match allSome ((ks.splitOn ",").map String.toNat?) with
+        | some l => some (id, some l)
+        | none => none
+  | _ => none
+
+def Tab.setKeys (t : Tab) (id : Nat) (ks : Option (List Nat)) : Tab :=
+  { t with keys := (grow t.keys id).setIfInBounds id ks }
+
+/-- the page with the real keys put into its cells (`none` if the key list is missing or has the wrong length); the ownership
+    tokens list only the leaf cells that have an overflow chain, so leaf cells are rebuilt from the keys -/
+def keyedPage (t : Tab) (i : Nat) : Option Page :=
+  match (t.pages[i]?).join, (t.keys[i]?).join with
+  | some (.leaf pr nx cs), some ks =>
+    some (.leaf pr nx ((List.range ks.length).zip ks |>.map fun (slot, k) =>
+      { key := k, val := (0, 0), chain := ((cs.find? (·.key = slot)).map (·.chain)).getD [] }))
+  | some (.interior pr nx r cs), some ks =>
+    if cs.length = ks.length then some (.interior pr nx r ((cs.zip ks).map fun (c, k) => { c with key := k })) else none
+  | _, _ => none
+
+/-- C10's checker on the tree below `root`, with the real keys -/
+def orderCheck (t : Tab) (root : Nat) : Option String :=
+  let d : Dump := { root := root, fuel := t.pages.size + 1, page := fun i => if i = 0 then none else keyedPage t i }
+  if checkTree d then none
+  else
+    some (match treeOf d with
+      | none => "no-keys/no-tree"
+      | some tr =>
+        if !tr.bounded none none then "order/bound"
+        else if !tr.sepsAscending then "separators"
+        else if !tr.height.isSome then "depth"
+        else if !linksOk d 0 (tr.leafList.map (·.1)) then "links"
+        else if !levelsLinked d tr then "interior-links"
+        else if !tr.noEmptyLeaf then "empty-leaf"
+        else "other")
 
 def Tab.toDump (t : Tab) (total first last : Nat) (roots : List Nat) : FileDump :=
   { total := total, firstFree := first, lastFree := last,
@@ -226,6 +274,8 @@ def whyNot (D : Defects) (f : FileDump) : String :=
 
 structure QSt where
   tab : Tab := {}
+  /-- non-gating remarks (C10's checkTree on the trees with numeric keys) -/
+  notes : List String := []
   /-- free list and total of the previous step -/
   prevFree : List Nat := []
   prevTotal : Nat := 0
@@ -265,6 +315,10 @@ def stepObs (D : Defects) (i : Nat) (st : QSt) (obs : String) : Except String QS
       match parsePageTok w with
       | some t => tab := tab.set t
       | none => throw s!"op{i} malformed page token"
+    else if k == "K" && !w.contains '=' then
+      match parseKeyTok w with
+      | some (id, ks) => tab := tab.setKeys id ks
+      | none => throw s!"op{i} malformed key token"
   let f := tab.toDump total first last roots
   if !FileDump.checkWith D f then throw s!"op{i} {whyNot D f}"
   let fl := (f.freeWalk).getD []
@@ -274,7 +328,17 @@ def stepObs (D : Defects) (i : Nat) (st : QSt) (obs : String) : Except String QS
   if st.started && total > st.prevTotal && !st.prevFree.isEmpty && st.prevFree.isPrefixOf fl then
     throw s!"op{i} grew-with-free-pages {st.prevFree.headD 0}"
   if st.started && total < st.prevTotal then throw s!"op{i} total-pages-shrank {total}"
-  pure { tab := tab, prevFree := fl, prevTotal := total, started := true }
+  -- C10's checker (keys ordered, separators route, uniform depth, sibling links) on every tree with numeric keys
+  let numeric := match field ws "N=" with
+    | some v => (v.splitOn ",").filterMap num
+    | none => []
+  for r in numeric do
+    if roots.contains r then
+      match orderCheck tab r with
+      | some why => throw s!"op{i} checkTree {r} ({why})"
+      | none => pure ()
+  let notes := st.notes
+  pure { tab := tab, notes := notes, prevFree := fl, prevTotal := total, started := true }
 
 def judgeSqlCase (D : Defects) (c gat : String) : String :=
   let nOps : Option Nat :=
@@ -294,7 +358,7 @@ def judgeSqlCase (D : Defects) (c gat : String) : String :=
       let parts := ((gat.drop 4).toString).splitOn " ; "
       let rec go (i : Nat) (st : QSt) : List String → String
         | [] =>
-          if i = n then "ok"
+          if i = n then (if st.notes.isEmpty then "ok" else "ok ## checkTree: " ++ " ".intercalate st.notes)
           else s!"bad number of observations ({i}) differs from the number of operations ({n})"
         | o :: os =>
           match stepObs D i st o with
